@@ -30,17 +30,20 @@ const (
 )
 
 type Step struct {
-	Op   int   `json:"op"`
-	Arg  int   `json:"arg"`            // meter key / instrument id / registration id / tracer id
-	Kind int   `json:"kind,omitempty"` // instrument kind for opInst
-	Obs  []int `json:"obs,omitempty"`  // observable instruments for opRegister
-	Same int   `json:"same,omitempty"` // opInst: request again the identity first requested at this step (0: a new one)
-	CB   bool  `json:"cb,omitempty"`   // opInst: pass a creation-time callback (observable kinds)
-	Via  int   `json:"via,omitempty"`  // opMeter / opTracer: 1 = through otel.Meter / otel.Tracer
-	Opt  bool  `json:"opt,omitempty"`  // opMeter / opTracer: with version, schema URL and attribute options
-	Bad  int   `json:"bad,omitempty"`  // opInst: 1-4 a name the SDK rejects, 5 the longest valid name
-	Prov int   `json:"prov,omitempty"` // installs: 1 = a provider value of a non-comparable type
-	Alt  int   `json:"alt,omitempty"`  // opMeter (key+1) / opTracer (id): that identity with DIFFERENT instrumentation attributes
+	Op    int   `json:"op"`
+	Arg   int   `json:"arg"`            // meter key / instrument id / registration id / tracer id
+	Kind  int   `json:"kind,omitempty"` // instrument kind for opInst
+	Obs   []int `json:"obs,omitempty"`  // observable instruments for opRegister
+	Same  int   `json:"same,omitempty"` // opInst: request again the identity first requested at this step (0: a new one)
+	CB    bool  `json:"cb,omitempty"`   // opInst: pass a creation-time callback (observable kinds)
+	Via   int   `json:"via,omitempty"`  // opMeter / opTracer: 1 = through otel.Meter / otel.Tracer
+	Opt   bool  `json:"opt,omitempty"`  // opMeter / opTracer: with version, schema URL and attribute options
+	Bad   int   `json:"bad,omitempty"`  // opInst: 1-4 a name the SDK rejects, 5 the longest valid name
+	Prov  int   `json:"prov,omitempty"` // installs: 1 = a provider value of a non-comparable type
+	Near  int   `json:"near,omitempty"` // opInst: name and kind of this earlier request, different description (Mode 1) / unit (2) / both (3)
+	Mode  int   `json:"mode,omitempty"`
+	Extra []int `json:"extra,omitempty"` // opRegister: observables the callback also observes without being registered for them
+	Alt   int   `json:"alt,omitempty"`   // opMeter (key+1) / opTracer (id): that identity with DIFFERENT instrumentation attributes
 }
 
 type Storm struct {
@@ -149,7 +152,7 @@ func runSeq(w *world, steps []Step, res *result) {
 			if s.Same > 0 {
 				same = w.insts[s.Same]
 			}
-			w.opInst(j, s.Arg, s.Kind, same, s.CB, s.Bad)
+			w.opInst(j, s.Arg, s.Kind, same, s.CB, s.Bad, w.insts[s.Near], s.Mode)
 		case opRecord:
 			w.opRecord(j, w.insts[s.Arg])
 		case opRegister:
@@ -159,7 +162,13 @@ func runSeq(w *world, steps []Step, res *result) {
 					obs = append(obs, x)
 				}
 			}
-			if w.opRegister(j, s.Arg, obs) == nil {
+			var extra []*inst
+			for _, i := range s.Extra {
+				if x := w.insts[i]; x != nil {
+					extra = append(extra, x)
+				}
+			}
+			if w.opRegister(j, s.Arg, obs, extra...) == nil {
 				res.Bad = append(res.Bad, fmt.Sprintf("step %d: RegisterCallback failed", j))
 			}
 		case opUnregister:
@@ -219,7 +228,7 @@ func runStorm(w *world, c *Storm, res *result) {
 		p.meters = append(p.meters, k)
 		var mine []*inst
 		mk := func(kind int, same *inst) {
-			x := w.opInst(id(), k, kind, same, root.Chance(1, 2), 0)
+			x := w.opInst(id(), k, kind, same, root.Chance(1, 2), 0, nil, 0)
 			addInst(x)
 			if x != nil {
 				mine = append(mine, x)
@@ -233,7 +242,12 @@ func runStorm(w *world, c *Storm, res *result) {
 		for i := 0; i < c.PreInsts/2+1; i++ {
 			o := mine[root.Intn(len(mine))]
 			for n := root.Range(1, 2); n > 0; n-- {
-				mk(o.kind, o)
+				if root.Bool() {
+					mk(o.kind, o)
+				} else { // same name and kind, another description / unit: its own stream
+					x := w.opInst(id(), k, o.kind, nil, root.Bool(), 0, o, 1+root.Intn(3))
+					addInst(x)
+				}
 			}
 		}
 		for i := 0; i < c.PreRegs; i++ {
@@ -255,8 +269,8 @@ func runStorm(w *world, c *Storm, res *result) {
 		ka := c.Meters + 20 // meter 0's identity with different instrumentation attributes
 		w.opMeter(ka, -1, 0, false, 0)
 		p.meters = append(p.meters, ka)
-		addInst(w.opInst(id(), ka, root.Intn(8), nil, false, 0))
-		addInst(w.opInst(id(), ka, 8+root.Intn(6), nil, false, 0))
+		addInst(w.opInst(id(), ka, root.Intn(8), nil, false, 0, nil, 0))
+		addInst(w.opInst(id(), ka, 8+root.Intn(6), nil, false, 0, nil, 0))
 	}
 	for i := 0; i < 2; i++ {
 		t := id()
@@ -358,7 +372,12 @@ func runStorm(w *world, c *Storm, res *result) {
 					}
 					p.mu.Unlock()
 				}
-				addInst(w.opInst(id(), k, r.Intn(nKinds), same, r.Chance(1, 3), 0))
+				var near *inst
+				mode := 0
+				if same != nil && r.Bool() { // the same name and kind under another description / unit: a distinct stream
+					near, same, mode = same, nil, 1+r.Intn(3)
+				}
+				addInst(w.opInst(id(), k, r.Intn(nKinds), same, r.Chance(1, 3), 0, near, mode))
 			}
 		})
 	}
